@@ -54,9 +54,11 @@ Proof. exact ClassSpec.address_criterion_is_prefix_equality. Qed.
 Print Assumptions address_criterion_is_prefix_equality.
 Require D30.
 
-(* OPEN FINDING D30 (known_findings.txt; not repaired): the xreply_ok criterion reads a SLOT bit; on the history of D30.v client 5 is
-   accepted with the class of rule 10-viad (xreply_ok d.svc) although d.svc never answered - it inherited the bit of a.svc, whose
-   released slot it took over.  The statement is the model's run, which is also the daemon's. *)
-Theorem xreply_ok_fails_across_a_reused_slot_refuted : D30.d30_statement.
-Proof. exact D30.d30_refutes. Qed.
-Print Assumptions xreply_ok_fails_across_a_reused_slot_refuted.
+(* D30, REPAIRED: the xreply_ok criterion reads a SLOT bit.  A reload that gives a previously empty slot to a service clears that bit in
+   every pending request (SlotReuse.reload_forgets_refilled_slots), so the OK of a former occupant does not count for the new one
+   (SlotReuse.xreply_ok_of_new_occupant_is_false).  D30.d30_statement: on the history of D30.v client 5 is no longer accepted with
+   the class of rule 10-viad (xreply_ok d.svc) on the strength of the OK of a.svc, whose released slot d.svc took over: at "5 U"
+   d.svc is asked and the client waits for its answer. *)
+Theorem xreply_ok_does_not_survive_a_refilled_slot : D30.d30_statement.
+Proof. exact D30.d30_repaired. Qed.
+Print Assumptions xreply_ok_does_not_survive_a_refilled_slot.
